@@ -568,17 +568,27 @@ func execPlan(t *testing.T, pa any) (out core.Outcome) {
 		if o.SkipV {
 			out.Probe("ok-with-skip-validation")
 		}
+		// stage: whether an earlier sparse operation of this plan succeeded (the recorded defects of go-git's sparse
+		// support all need one: the second operation does not see skip-worktree entries), or this is the first one,
+		// from an empty worktree or from a full checkout
+		stage := "later"
+		if !havePrev {
+			stage = "first-full"
+			if p.Fresh {
+				stage = "first-fresh"
+			}
+		}
 		classFor := func(tp string) string {
 			if prefixSibling(tp, dirs) {
-				return "prefix-sibling"
+				return "prefix-sibling|" + stage
 			}
-			return class
+			return class + "|" + stage
 		}
 
 		// 1. the on-disk index
 		idx, ok := porc.DecodeIndexOnDisk(d)
 		if !ok || idx == nil {
-			out.Fail(fmt.Sprintf("C32|%s|entry-dropped|%s", name, class), "after %s (nil) the index is missing or undecodable", name)
+			out.Fail(fmt.Sprintf("C32|%s|entry-dropped|%s", name, classFor("")), "after %s (nil) the index is missing or undecodable", name)
 			break
 		}
 		flags := map[string]bool{}
